@@ -120,17 +120,24 @@ def run_config(cx, cfg, prog):
     # invariants the D3 rows rely on: re-evaluated from the checks that establish them
     if cfg == 'default':
         inv = cx.rule('R5.1i', 'invariants used by D3 are established', floor=2, kind='dependency')
-        for prop, rules_, name in (('C02', ('R2.3', 'R2.6'), 'I1'), ('C04', ('R4.1', 'R4.2', 'R4.3', 'R4.4'), 'I2/I3')):
+        for prop, rules_, name in (('C02', ('R2.3', 'R2.5', 'R2.6'), 'I1'), ('C04', ('R4.1', 'R4.2', 'R4.3', 'R4.4'), 'I2/I3'),
+                                   ('C16', ('R16.1', 'R16.3'), 'I2/I3')):
+            only = r'modes-not-cleaned|new_from_modes_and_cleanup\|fields|new_for_channel\|shape|new_on_user_join\|shape' if prop == 'C16' else None
             import importlib
             sub = report.Check(prop, cx.check.tier)
             scx = Cx(sub, {'default': prog})
             scx._walks = cx._walks
+            from .common import _DEP_DEPTH
+            _DEP_DEPTH[0] += 1
             try:
                 importlib.import_module('rules.' + prop).check(scx)
             except report.AnchorLost as e:
                 inv.violation('%s|anchor' % name, 'the check establishing %s lost its anchor: %s' % (name, e))
                 continue
-            broken = [v for r in sub.rules if r.rid in rules_ for v in r.violations]
+            finally:
+                _DEP_DEPTH[0] -= 1
+            import re as _re
+            broken = [v for r in sub.rules if r.rid in rules_ for v in r.violations if only is None or _re.search(only, v.key)]
             n_dep = sum(v for k, v in D.used.items() if k.startswith('D3:' + name.split('/')[0]) or (name == 'I2/I3' and k in ('D3:I2', 'D3:I3')))
             inv.instance('%s established by %s %s: %d sites depend on it' % (name, prop, '/'.join(rules_), n_dep))
             if broken:
